@@ -100,6 +100,32 @@ def one_case(rep, cs, seed, i):
         if not close(outA, outB, rtol=1e-12, atol=1e-14):
             rep.violation("reload-differs", "after loading the saved state dictionary the fresh instance computes different outputs",
                           {"case": desc, "inputs": ys, "observed": outB.tolist(), "expected": outA.tolist()})
+        # a derived circuit compiled in the reloaded context AFTERWARDS reads the loaded values and leaves them alone
+        if scope:
+            ov = sorted(rng.sample(scope, rng.randint(1, len(scope))))
+            obs = {v: (rng.randrange(g.doms[v][1]) if g.doms[v][0] == "disc" else gen.dy(rng, 0, 6, 4)) for v in ov}
+            kind_d = rng.choice(["evidence", "evidence", "integrate-evidence", "conjugate"])
+            try:
+                sd_ = SF.evidence(sc, obs)
+                if kind_d == "integrate-evidence" and sd_.scope._set:
+                    sd_ = SF.integrate(sd_)
+                elif kind_d == "conjugate":
+                    sd_ = SF.conjugate(sc)
+            except Exception:
+                sd_ = None
+            if sd_ is not None:
+                rep.count("derived-after-load:" + kind_d)
+                ctxB.compile(sd_)
+                outB2 = evalc.evaluate(ccB, sc, ys, sem, width=w)
+                if not close(outA, outB2, rtol=1e-12, atol=1e-14):
+                    rep.violation("derived-compile-changes-reloaded", f"compiling a derived ({kind_d}) circuit in the reloaded context changed the outputs of the reloaded circuit",
+                                  {"case": desc, "inputs": ys, "observed": outB2.tolist(), "expected": outA.tolist()})
+                if kind_d == "evidence":
+                    rest_ = [v for v in scope if v not in ov]
+                    ys_ = [{v: y[v] for v in rest_} for y in ys]
+                    okd, det = opkit.oracle_evidence(sc, sd_, obs, ys_, sem, fold, opt, ctx=ctxB)
+                    if okd is False:
+                        rep.violation("derived-after-load-differs", "an evidence circuit compiled after the reload does not agree with the reloaded circuit", {"case": desc, "obs": obs, **det})
         # save / reset / load sequence on the same instance
         ccA.reset_parameters()
         ccA.load_state_dict(sd2)
